@@ -14,6 +14,11 @@ def main(argv):
     seed, shard, nshards = int(seed), int(shard), int(nshards)
     from . import env
     from .core import Ctx, dump_result
+    from . import reach
+    import os
+    rc = reach.Reach(os.path.join(env.REPO, "dynetx"))
+    if os.environ.get("DYNMON_REACH", "1") != "0":
+        rc.start()  # before the import: module and class bodies count as reached
     try:
         dn = env.load()
     except Exception as ex:  # import failure: inconclusive, never "held"
@@ -28,7 +33,8 @@ def main(argv):
     except Exception as ex:
         # a crash of the harness itself is not a verdict on the library
         ctx.notes["harness_crash"] = traceback.format_exc()
-    dump_result(ctx, out)
+    rc.stop()
+    dump_result(ctx, out, reach=rc.result() if rc.lines else None)
     return 0
 
 
